@@ -14,3 +14,8 @@ def run(tier):
     from ..contracts import aggsite, active
     reps += [deductive.verify_function(rel, q, c, hooks=active.hooks_for(c), prefix='%s::%s[zero specification]' % (rel, q)) for rel, q, c in active.ITEMS]
     return reps + cvec.reports() + aggsite.reports(('logsumexp',))
+
+
+def replay(prop, ob):
+    from ..contracts import cvec
+    return cvec.replay(ob)
